@@ -667,6 +667,73 @@ fn race(n: usize) {
     println!("@@ race opens={n} error-after-ok={late} error-before-ok={early} other={missing}");
 }
 
+/// Number of child processes of `run` (override: `PV_C29_SHARDS`; 1 = answer in this process).
+const SHARDS: usize = 4;
+
+/// `run`: answers the cases of stdin in their order. The cases are independent (each one builds a
+/// fresh server) but the gate is process-wide, so one process can only run one case at a time;
+/// the cases are therefore dealt round-robin to `SHARDS` child processes (`run1`, the sequential
+/// loop) and the replies are put back in order. A child that dies leaves its later cases
+/// unanswered: the replies before the first unanswered case are printed and the exit code is 3.
+fn run_sharded() {
+    use std::io::{BufRead, Read};
+    use std::process::{Command, Stdio};
+    let n = std::env::var("PV_C29_SHARDS").ok().and_then(|s| s.parse().ok()).unwrap_or(SHARDS);
+    let exe = std::env::current_exe().ok();
+    if n <= 1 || exe.is_none() {
+        return run_lines(run_case);
+    }
+    let lines: Vec<String> = std::io::stdin().lock().lines().map(|l| l.unwrap()).collect();
+    let mut workers = vec![];
+    for k in 0..n {
+        let input: String = lines.iter().skip(k).step_by(n).map(|l| format!("{l}\n")).collect();
+        let mut child = Command::new(exe.as_ref().unwrap())
+            .args(["c29", "run1"])
+            .stdin(Stdio::piped())
+            .stdout(Stdio::piped())
+            .stderr(Stdio::null())
+            .spawn()
+            .expect("cannot start a shard");
+        let mut stdin = child.stdin.take().unwrap();
+        let mut stdout = child.stdout.take().unwrap();
+        let feeder = std::thread::spawn(move || {
+            let _ = stdin.write_all(input.as_bytes());
+        });
+        let reader = std::thread::spawn(move || {
+            let mut out = String::new();
+            let _ = stdout.read_to_string(&mut out);
+            out
+        });
+        workers.push((child, feeder, reader));
+    }
+    let mut replies: Vec<Vec<String>> = vec![];
+    for (mut child, feeder, reader) in workers {
+        let out = reader.join().unwrap_or_default();
+        let _ = feeder.join();
+        let _ = child.wait();
+        replies.push(out.lines().filter(|l| l.starts_with("@@ ")).map(|l| l.to_string()).collect());
+    }
+    let mut text = String::new();
+    let mut complete = true;
+    for i in 0..lines.len() {
+        match replies[i % n].get(i / n) {
+            Some(r) => {
+                text.push_str(r);
+                text.push('\n');
+            }
+            None => {
+                complete = false;
+                break;
+            }
+        }
+    }
+    std::io::stdout().write_all(text.as_bytes()).unwrap();
+    std::io::stdout().flush().unwrap();
+    if !complete {
+        std::process::exit(3);
+    }
+}
+
 pub fn cli(args: &[String]) {
     match args.first().map(|s| s.as_str()) {
         Some("gen") => {
@@ -680,7 +747,8 @@ pub fn cli(args: &[String]) {
             }
             std::io::stdout().write_all(s.as_bytes()).unwrap();
         }
-        Some("run") => run_lines(run_case),
+        Some("run") => run_sharded(),
+        Some("run1") => run_lines(run_case),
         Some("probe") => probe(),
         Some("race") => race(args.get(1).and_then(|s| s.parse().ok()).unwrap_or(1000)),
         _ => {
